@@ -24,6 +24,8 @@ def jobs(tier):
     for f in ('shape_2_0__2_0', 'shape_1_0__2_0', 'shape_3_0__1_1', 'shape_3_0__1_1_str', 'shape_1_1__1_1', 'shape_0_2__0_2_order',
               'shape_typed_int_float', 'shape_ignore', 'base_distinct'):
         add('obligations.ch.memo', f, 'C16', C16_F)
+    for f in ('fmt_put_int', 'fmt_put_str', 'fmt_put_bytes', 'fmt_put_other', 'fmt_store_str', 'fmt_store_bytes', 'fmt_store_int', 'fmt_read_baseline_text', 'fmt_constants'):
+        add('obligations.ch.fmt', f, 'C18', ['core.Disk.put', 'core.Disk.get', 'core.Disk.hash', 'core.Disk.store', 'core.Disk.fetch', 'core.Disk.filename'])
     add('obligations.ch.prefix', 'isolation', 'C10', C10_F, budget=max(b, 200))
     add('obligations.ch.prefix', 'own_keys_in_range', 'C10', C10_F, budget=max(b, 200))
     return out
